@@ -27,7 +27,7 @@ use std::sync::Arc;
 use std::task::{Context, Poll, Wake, Waker};
 use uuid::Uuid;
 use verif_harness::brokertrack::Model;
-use verif_harness::msgfmt::{fmt_msg, Ids};
+use verif_harness::msgfmt::{fmt_msg, parse_msg, Ids};
 use verif_harness::{env_u64, quiet_panics, Rng};
 
 struct Noop;
@@ -391,166 +391,356 @@ fn kind_of(text: &str) -> &str {
     text.split(' ').next().unwrap_or("")
 }
 
-/// one ordinary step: connection `c` sends `msg`, the system runs to quiescence, everything every
-/// client received is recorded together with the fresh cookie / broker serial the implementation chose
-#[allow(clippy::too_many_arguments)]
-fn step_message(h: &mut Hist, w: &mut World, m: &mut Model, ids: &mut Ids, p: &mut Pools, tracker_ok: &mut bool,
-                c: usize, msg: Message, step: usize) -> Result<(), String> {
-    let text = fmt_msg(&msg, ids);
-    *h.kinds.entry(format!("in:{}", kind_of(&text))).or_default() += 1;
-    h.pending = format!("MSG {} 0 - {}", c, text);
-    if !send(w.clients[c].as_mut().unwrap(), msg.clone()) {
-        return Err(format!("step {step}: could not send on live client {c}"));
-    }
-    w.settle();
-    let mut o = vec![];
-    let mut cl = vec![];
-    for j in 0..w.clients.len() {
-        let (x, closed) = w.drain(j);
-        if closed {
-            cl.push(j);
-        }
-        o.push(x);
-    }
-    let mut fresh = None;
-    for x in &o[c] {
-        match x {
-            Message::CreateObjectReply(CreateObjectReply { result: CreateObjectResult::Ok(k), .. }) => {
-                fresh = Some(k.0);
-                p.obj_cookies.push(k.0);
-            }
-            Message::CreateServiceReply(CreateServiceReply { result: CreateServiceResult::Ok(k), .. }) => {
-                fresh = Some(k.0);
-                p.svc_cookies.push(k.0);
-            }
-            Message::CreateChannelReply(CreateChannelReply { cookie, .. }) => {
-                fresh = Some(cookie.0);
-                p.chan_cookies.push(cookie.0);
-            }
-            Message::CreateBusListenerReply(CreateBusListenerReply { cookie, .. }) => {
-                fresh = Some(cookie.0);
-                p.lis_cookies.push(cookie.0);
-            }
-            _ => {}
-        }
-    }
-    let mut bser = None;
-    for x in o.iter().flatten() {
-        match x {
-            Message::CallFunction(cf) => {
-                p.bserials.push(cf.serial);
-                bser = Some(cf.serial);
-            }
-            Message::CallFunction2(cf) => {
-                p.bserials.push(cf.serial);
-                bser = Some(cf.serial);
-            }
-            _ => {}
-        }
-    }
-    if *tracker_ok && catch_unwind(AssertUnwindSafe(|| m.message(c, msg, fresh))).is_err() {
-        *tracker_ok = false;
-    }
-    let fid = fresh.map(|f| ids.id(f)).unwrap_or(900_000 + step as u64);
-    let bs = bser.map(|b| b.to_string()).unwrap_or_else(|| "-".into());
-    // emit
-    writeln!(h.out, "EV MSG {} {} {} {}", c, fid, bs, text).unwrap();
-    for (j, oj) in o.iter().enumerate() {
-        for x in oj {
-            let t = fmt_msg(x, ids);
-            *h.kinds.entry(format!("out:{}", kind_of(&t))).or_default() += 1;
-            writeln!(h.out, "OUT {} {}", j, t).unwrap();
-        }
-    }
-    for c in &cl {
-        writeln!(h.out, "CLOSED {}", c).unwrap();
-    }
-    match w.stats() {
-        Some(s) => writeln!(h.out, "STATS {} {} {} {} {}", s[0], s[1], s[2], s[3], s[4]).unwrap(),
-        None => writeln!(h.out, "STATS -").unwrap(),
-    }
-    writeln!(h.out, "EXIT {}", if w.btask.is_none() { 1 } else { 0 }).unwrap();
-    writeln!(h.out, "END").unwrap();
-    h.steps += 1;
-    Ok(())
+/// everything one history runs on: the real broker world, the generator's tracker, the uuid <-> id
+/// table of the trace and the pools of values seen so far
+struct Sys {
+    w: World,
+    m: Model,
+    ids: Ids,
+    p: Pools,
+    tracker_ok: bool,
+    /// re-executing a stored history (`broker replay`): operations that cannot be executed are
+    /// harness errors, fresh cookies are bound to the recorded ids
+    replay: bool,
 }
 
-fn run_history(seed: u64, len: usize, mix: Mix, h: &mut Hist) -> Result<(), String> {
-    let mut r = Rng::new(seed);
-    let mut w = World::new();
-    let mut m = Model::default();
-    let mut ids = Ids::default();
-    let mut p = Pools {
-        obj_uuids: vec![u(1), u(2), u(3)],
-        svc_uuids: vec![u(11), u(12), u(13)],
-        obj_cookies: vec![],
-        svc_cookies: vec![],
-        chan_cookies: vec![],
-        lis_cookies: vec![],
-        bserials: vec![],
-    };
-    for x in p.obj_uuids.iter().chain(p.svc_uuids.iter()) {
-        ids.id(*x);
+impl Sys {
+    fn new(replay: bool) -> Self {
+        let p = Pools {
+            obj_uuids: vec![u(1), u(2), u(3)],
+            svc_uuids: vec![u(11), u(12), u(13)],
+            obj_cookies: vec![],
+            svc_cookies: vec![],
+            chan_cookies: vec![],
+            lis_cookies: vec![],
+            bserials: vec![],
+        };
+        let ids = pool_ids(&p);
+        Sys { w: World::new(), m: Model::default(), ids, p, tracker_ok: true, replay }
     }
-    let mut tracker_ok = true;
-    writeln!(h.out, "HIST {}", seed).unwrap();
-
-    // emit one step: event line, outputs, closed set, stats, broker exited?
-    fn emit(h: &mut Hist, w: &mut World, ids: &mut Ids, ev: String, real_out: &[Vec<Message>], closed: &[usize]) {
-        writeln!(h.out, "EV {}", ev).unwrap();
-        for (j, o) in real_out.iter().enumerate() {
-            for x in o {
-                let t = fmt_msg(x, ids);
-                *h.kinds.entry(format!("out:{}", kind_of(&t))).or_default() += 1;
-                writeln!(h.out, "OUT {} {}", j, t).unwrap();
-            }
-        }
-        for c in closed {
-            writeln!(h.out, "CLOSED {}", c).unwrap();
-        }
-        match w.stats() {
-            Some(s) => writeln!(h.out, "STATS {} {} {} {} {}", s[0], s[1], s[2], s[3], s[4]).unwrap(),
-            None => writeln!(h.out, "STATS -").unwrap(),
-        }
-        writeln!(h.out, "EXIT {}", if w.btask.is_none() { 1 } else { 0 }).unwrap();
-        writeln!(h.out, "END").unwrap();
-        h.steps += 1;
-    }
-
-    let drain_all = |w: &mut World| -> (Vec<Vec<Message>>, Vec<usize>) {
+    fn drain_all(&mut self) -> (Vec<Vec<Message>>, Vec<usize>) {
         let mut outs = vec![];
         let mut closed = vec![];
-        for j in 0..w.clients.len() {
-            let (o, cl) = w.drain(j);
+        for j in 0..self.w.clients.len() {
+            let (o, cl) = self.w.drain(j);
             if cl {
                 closed.push(j);
             }
             outs.push(o);
         }
         (outs, closed)
-    };
+    }
+    fn alive(&self, c: usize) -> bool {
+        c < self.w.clients.len() && self.w.clients[c].is_some()
+    }
+}
+
+/// the uuids of the pools have the first ids of every history
+fn pool_ids(p: &Pools) -> Ids {
+    let mut ids = Ids::default();
+    for x in p.obj_uuids.iter().chain(p.svc_uuids.iter()) {
+        ids.id(*x);
+    }
+    ids
+}
+
+/// one injected operation = one step of the broker (the queued-then-dropped request is two)
+enum Op {
+    /// connect with this minor version
+    New(u32),
+    /// disconnect: the client drops its transport, or (clean) sends Shutdown first
+    Shut { c: usize, clean: bool },
+    /// the connection task is dropped, the broker is not told
+    Drop(usize),
+    /// the request is forwarded into the broker queue, then the connection task is dropped
+    DropQueued(usize, Message),
+    /// forced through the broker handle
+    ShutC(usize),
+    ShutB,
+    ShutI,
+    Msg(usize, Message),
+}
+
+/// emit one step: event line, outputs, closed set, stats, broker exited?
+fn emit(h: &mut Hist, s: &mut Sys, ev: String, real_out: &[Vec<Message>], closed: &[usize]) {
+    writeln!(h.out, "EV {}", ev).unwrap();
+    for (j, o) in real_out.iter().enumerate() {
+        for x in o {
+            let t = fmt_msg(x, &mut s.ids);
+            *h.kinds.entry(format!("out:{}", kind_of(&t))).or_default() += 1;
+            writeln!(h.out, "OUT {} {}", j, t).unwrap();
+        }
+    }
+    for c in closed {
+        writeln!(h.out, "CLOSED {}", c).unwrap();
+    }
+    match s.w.stats() {
+        Some(st) => writeln!(h.out, "STATS {} {} {} {} {}", st[0], st[1], st[2], st[3], st[4]).unwrap(),
+        None => writeln!(h.out, "STATS -").unwrap(),
+    }
+    writeln!(h.out, "EXIT {}", if s.w.btask.is_none() { 1 } else { 0 }).unwrap();
+    writeln!(h.out, "END").unwrap();
+    h.steps += 1;
+}
+
+/// the id printed in the fresh-id field of a `MSG` event.  Generator (`want` = None): the next id
+/// in order of first appearance, or 900000+step when the implementation created no cookie.
+/// Replay (`want` = the recorded field): a created cookie is bound to the recorded id (so that
+/// later events that mention the id resolve to the new cookie); if the recording has no usable id
+/// for it (behaviour changed) it gets a new id, which lies above every id of the events file.
+fn fresh_id(ids: &mut Ids, fresh: Option<Uuid>, want: Option<u64>, step: usize) -> u64 {
+    match (fresh, want) {
+        (Some(f), Some(wid)) => {
+            if wid >= 1 && wid < 900_000 && ids.uuid_of(wid).is_none() && !ids.map.contains_key(&f) {
+                ids.bind(f, wid);
+            }
+            ids.id(f)
+        }
+        (Some(f), None) => ids.id(f),
+        (None, Some(wid)) if wid >= 900_000 => wid,
+        (None, _) => 900_000 + step as u64,
+    }
+}
+
+/// Execute one operation on the real broker, run to quiescence and record what every client
+/// received, which connections the broker closed, the gauges and the exit flag.  Used by the
+/// generator (`want_fresh` = None) and by the replayer (`want_fresh` = recorded fresh-id field).
+fn exec_op(h: &mut Hist, s: &mut Sys, op: Op, step: usize, want_fresh: Option<u64>) -> Result<(), String> {
+    let label = if s.replay { format!("event {}", (step + 1).saturating_sub(REPLAY_STEP0)) } else { format!("step {step}") };
+    exec_op_inner(h, s, op, step, want_fresh).map_err(|e| format!("{label}: {e}"))
+}
+
+/// replayed events are numbered from here (only visible in the 900000+step placeholder of the
+/// fresh-id field when a replayed step unexpectedly creates no cookie)
+const REPLAY_STEP0: usize = 50_000;
+
+fn exec_op_inner(h: &mut Hist, s: &mut Sys, op: Op, step: usize, want_fresh: Option<u64>) -> Result<(), String> {
+    match op {
+        Op::New(v) => {
+            h.pending = format!("NEW {} {}", s.w.clients.len(), v.min(20));
+            if s.replay && s.w.btask.is_none() {
+                return Err(format!("NEW: the broker has exited"));
+            }
+            let i = s.w.connect(v);
+            s.m.new_conn(i, v.min(20));
+            let (o, c) = s.drain_all();
+            emit(h, s, format!("NEW {} {}", i, v.min(20)), &o, &c);
+        }
+        Op::Shut { c, clean: false } => {
+            // disconnect by dropping the client's transport
+            h.pending = format!("SHUT {}", c);
+            if !s.alive(c) {
+                return Err(format!("SHUT {c}: not a live connection"));
+            }
+            s.w.clients[c] = None;
+            s.w.settle();
+            let (o, cl) = s.drain_all();
+            let _ = catch_unwind(AssertUnwindSafe(|| s.m.conn_shutdown(c)));
+            emit(h, s, format!("SHUT {}", c), &o, &cl);
+        }
+        Op::Shut { c, clean: true } => {
+            // clean disconnect: the client sends Shutdown; the connection answers Shutdown
+            h.pending = format!("SHUT {} clean", c);
+            if !s.alive(c) {
+                return Err(format!("SHUT {c} clean: not a live connection"));
+            }
+            send(s.w.clients[c].as_mut().unwrap(), Shutdown);
+            s.w.settle();
+            let (mut o, mut cl) = s.drain_all();
+            o[c].retain(|x| !matches!(x, Message::Shutdown(_)));
+            s.w.clients[c] = None;
+            cl.retain(|x| *x != c);
+            let _ = catch_unwind(AssertUnwindSafe(|| s.m.conn_shutdown(c)));
+            emit(h, s, format!("SHUT {} clean", c), &o, &cl);
+        }
+        Op::Drop(c) => {
+            // drop the connection task: the broker is not told
+            h.pending = format!("DROP {}", c);
+            if !s.alive(c) {
+                return Err(format!("DROP {c}: not a live connection"));
+            }
+            s.w.tasks[c] = None;
+            s.w.clients[c] = None;
+            s.w.settle();
+            let (o, cl) = s.drain_all();
+            s.m.drop_task(c);
+            emit(h, s, format!("DROP {}", c), &o, &cl);
+        }
+        Op::DropQueued(c, msg) => {
+            // the request is forwarded into the broker queue, then the task is dropped
+            let text = fmt_msg(&msg, &mut s.ids);
+            *h.kinds.entry(format!("in:{}", kind_of(&text))).or_default() += 1;
+            h.pending = format!("MSG {} 0 - {}", c, text);
+            if !s.alive(c) {
+                return Err(format!("DROP {c} + MSG {c}: not a live connection"));
+            }
+            send(s.w.clients[c].as_mut().unwrap(), msg.clone());
+            for _ in 0..4 {
+                poll(&mut s.w.tasks[c]);
+            }
+            s.w.tasks[c] = None;
+            s.w.clients[c] = None;
+            // the drop happens before the broker dequeues the request
+            s.m.drop_task(c);
+            // (no gauge query here: polling the broker would let it dequeue the request)
+            writeln!(h.out, "EV DROP {}\nSTATS -\nEXIT 0\nEND", c).unwrap();
+            h.steps += 1;
+            s.w.settle();
+            let (o, cl) = s.drain_all();
+            let bser = o.iter().flatten().find_map(|x| match x {
+                Message::CallFunction(cf) => Some(cf.serial),
+                Message::CallFunction2(cf) => Some(cf.serial),
+                _ => None,
+            });
+            if s.tracker_ok && catch_unwind(AssertUnwindSafe(|| s.m.message(c, msg, None))).is_err() {
+                s.tracker_ok = false;
+            }
+            let bs = bser.map(|b| b.to_string()).unwrap_or_else(|| "-".into());
+            let fid = fresh_id(&mut s.ids, None, want_fresh, step);
+            emit(h, s, format!("MSG {} {} {} {}", c, fid, bs, text), &o, &cl);
+        }
+        Op::ShutC(c) => {
+            // forced by the broker handle
+            h.pending = format!("SHUTC {}", c);
+            if s.replay && !s.alive(c) {
+                return Err(format!("SHUTC {c}: not a live connection"));
+            }
+            let hd = s.w.chandles[c].borrow().clone();
+            if let Some(hd) = hd {
+                let _ = s.w.with_handle(|mut bh| Box::pin(async move { bh.shutdown_connection(&hd).await.ok() }));
+                s.w.settle();
+                let (mut o, mut cl) = s.drain_all();
+                // the client sees Shutdown and closes its side
+                let got = o[c].iter().any(|x| matches!(x, Message::Shutdown(_)));
+                if got {
+                    s.w.clients[c] = None;
+                    s.w.settle();
+                    let (o2, cl2) = s.drain_all();
+                    for (a, b) in o.iter_mut().zip(o2) {
+                        a.extend(b);
+                    }
+                    cl.extend(cl2);
+                }
+                cl.retain(|x| *x != c);
+                let _ = catch_unwind(AssertUnwindSafe(|| s.m.shutdown_conn_forced(c)));
+                emit(h, s, format!("SHUTC {}", c), &o, &cl);
+            } else if s.replay {
+                return Err(format!("SHUTC {c}: the connection has no handle"));
+            }
+        }
+        Op::ShutI => {
+            h.pending = "SHUTI".to_string();
+            s.w.with_handle(|mut bh| Box::pin(async move { bh.shutdown_idle().await }));
+            s.w.settle();
+            let (o, cl) = s.drain_all();
+            emit(h, s, "SHUTI".to_string(), &o, &cl);
+        }
+        Op::ShutB => {
+            h.pending = "SHUTB".to_string();
+            s.w.with_handle(|mut bh| Box::pin(async move { bh.shutdown().await }));
+            s.w.settle();
+            let (mut o, mut cl) = s.drain_all();
+            // clients that received Shutdown close their side
+            for j in 0..s.w.clients.len() {
+                if s.w.clients[j].is_some() && o[j].iter().any(|x| matches!(x, Message::Shutdown(_))) {
+                    s.w.clients[j] = None;
+                    cl.retain(|x| *x != j);
+                }
+            }
+            s.w.settle();
+            let (o2, cl2) = s.drain_all();
+            for (a, b) in o.iter_mut().zip(o2) {
+                a.extend(b);
+            }
+            cl.extend(cl2);
+            emit(h, s, "SHUTB".to_string(), &o, &cl);
+        }
+        Op::Msg(c, msg) => {
+            // one ordinary step: connection `c` sends `msg`, the system runs to quiescence, everything
+            // every client received is recorded together with the fresh cookie / broker serial the
+            // implementation chose
+            let text = fmt_msg(&msg, &mut s.ids);
+            *h.kinds.entry(format!("in:{}", kind_of(&text))).or_default() += 1;
+            h.pending = format!("MSG {} 0 - {}", c, text);
+            if !s.alive(c) {
+                return Err(format!("MSG {c}: not a live connection"));
+            }
+            if !send(s.w.clients[c].as_mut().unwrap(), msg.clone()) {
+                return Err(format!("could not send on live client {c}"));
+            }
+            s.w.settle();
+            let (o, cl) = s.drain_all();
+            let mut fresh = None;
+            for x in &o[c] {
+                match x {
+                    Message::CreateObjectReply(CreateObjectReply { result: CreateObjectResult::Ok(k), .. }) => {
+                        fresh = Some(k.0);
+                        s.p.obj_cookies.push(k.0);
+                    }
+                    Message::CreateServiceReply(CreateServiceReply { result: CreateServiceResult::Ok(k), .. }) => {
+                        fresh = Some(k.0);
+                        s.p.svc_cookies.push(k.0);
+                    }
+                    Message::CreateChannelReply(CreateChannelReply { cookie, .. }) => {
+                        fresh = Some(cookie.0);
+                        s.p.chan_cookies.push(cookie.0);
+                    }
+                    Message::CreateBusListenerReply(CreateBusListenerReply { cookie, .. }) => {
+                        fresh = Some(cookie.0);
+                        s.p.lis_cookies.push(cookie.0);
+                    }
+                    _ => {}
+                }
+            }
+            let mut bser = None;
+            for x in o.iter().flatten() {
+                match x {
+                    Message::CallFunction(cf) => {
+                        s.p.bserials.push(cf.serial);
+                        bser = Some(cf.serial);
+                    }
+                    Message::CallFunction2(cf) => {
+                        s.p.bserials.push(cf.serial);
+                        bser = Some(cf.serial);
+                    }
+                    _ => {}
+                }
+            }
+            if s.tracker_ok && catch_unwind(AssertUnwindSafe(|| s.m.message(c, msg, fresh))).is_err() {
+                s.tracker_ok = false;
+            }
+            // (replay: the cookie is bound to its recorded id before any output is formatted)
+            let fid = fresh_id(&mut s.ids, fresh, want_fresh, step);
+            let bs = bser.map(|b| b.to_string()).unwrap_or_else(|| "-".into());
+            emit(h, s, format!("MSG {} {} {} {}", c, fid, bs, text), &o, &cl);
+        }
+    }
+    Ok(())
+}
+
+fn run_history(seed: u64, len: usize, mix: Mix, h: &mut Hist) -> Result<(), String> {
+    let mut r = Rng::new(seed);
+    let mut s = Sys::new(false);
+    writeln!(h.out, "HIST {}", seed).unwrap();
 
     let nconn = 2 + r.below(3) as usize;
     for _ in 0..nconn {
         let v = [14u32, 15, 16, 17, 18, 19, 20, 20, 20][r.below(9) as usize];
-        let i = w.connect(v);
-        m.new_conn(i, v.min(20));
-        let (o, c) = drain_all(&mut w);
-        emit(h, &mut w, &mut ids, format!("NEW {} {}", i, v.min(20)), &o, &c);
+        exec_op(h, &mut s, Op::New(v), 0, None)?;
     }
     // bootstrap: a few objects and services (with subscribe-all support), a channel and a listener
     // exist from the start, so that the focused phases have something to work on
     let mut boot = 100_000usize;
     if mix != Mix::Abuse || r.chance(1, 2) {
         let nboot = r.range(1, 2) as usize;
-        for i in 0..nboot.min(w.clients.len()) {
-            let ou = p.obj_uuids[i % 3];
+        for i in 0..nboot.min(s.w.clients.len()) {
+            let ou = s.p.obj_uuids[i % 3];
             boot += 1;
-            step_message(h, &mut w, &mut m, &mut ids, &mut p, &mut tracker_ok, i, CreateObject { serial: 0, uuid: ObjectUuid(ou) }.into(), boot)?;
-            if let Some(oc) = p.obj_cookies.last().cloned() {
+            exec_op(h, &mut s, Op::Msg(i, CreateObject { serial: 0, uuid: ObjectUuid(ou) }.into()), boot, None)?;
+            if let Some(oc) = s.p.obj_cookies.last().cloned() {
                 for j in 0..r.range(1, 2) as usize {
-                    let ver = m.conns.get(&i).map(|x| x.ver).unwrap_or(14);
-                    let su = ServiceUuid(p.svc_uuids[(i + j) % 3]);
+                    let ver = s.m.conns.get(&i).map(|x| x.ver).unwrap_or(14);
+                    let su = ServiceUuid(s.p.svc_uuids[(i + j) % 3]);
                     boot += 1;
                     let msg: Message = if ver >= 17 {
                         let info = ServiceInfo::new(1).set_subscribe_all(true);
@@ -558,29 +748,28 @@ fn run_history(seed: u64, len: usize, mix: Mix, h: &mut Hist) -> Result<(), Stri
                     } else {
                         CreateService { serial: 1, object_cookie: ObjectCookie(oc), uuid: su, version: 1 }.into()
                     };
-                    step_message(h, &mut w, &mut m, &mut ids, &mut p, &mut tracker_ok, i, msg, boot)?;
+                    exec_op(h, &mut s, Op::Msg(i, msg), boot, None)?;
                 }
             }
         }
         if matches!(mix, Mix::Channels | Mix::All) {
             boot += 1;
             let e = if r.chance(1, 2) { ChannelEndWithCapacity::Sender } else { ChannelEndWithCapacity::Receiver([1u32, 4, 5, 6, 20][r.below(5) as usize]) };
-            step_message(h, &mut w, &mut m, &mut ids, &mut p, &mut tracker_ok, 0, CreateChannel { serial: 2, end: e }.into(), boot)?;
+            exec_op(h, &mut s, Op::Msg(0, CreateChannel { serial: 2, end: e }.into()), boot, None)?;
         }
         if matches!(mix, Mix::Listeners | Mix::All) {
             boot += 1;
-            let lc = 1.min(w.clients.len() - 1);
-            step_message(h, &mut w, &mut m, &mut ids, &mut p, &mut tracker_ok, lc, CreateBusListener { serial: 3 }.into(), boot)?;
+            let lc = 1.min(s.w.clients.len() - 1);
+            exec_op(h, &mut s, Op::Msg(lc, CreateBusListener { serial: 3 }.into()), boot, None)?;
         }
     }
-    let mut dropped: Vec<usize> = vec![];
     let mut focus = Focus::default();
     let mut step = 0usize;
     let mut shutdown_idle_sent = false;
     while step < len {
         step += 1;
-        let alive: Vec<usize> = (0..w.clients.len()).filter(|i| w.clients[*i].is_some()).collect();
-        if alive.is_empty() || w.btask.is_none() {
+        let alive: Vec<usize> = (0..s.w.clients.len()).filter(|i| s.w.clients[*i].is_some()).collect();
+        if alive.is_empty() || s.w.btask.is_none() {
             break;
         }
         // (re)focus every dozen steps on one live service / channel / listener and a few connections
@@ -592,6 +781,7 @@ fn run_history(seed: u64, len: usize, mix: Mix, h: &mut Hist) -> Result<(), Stri
                 for _ in 0..k {
                     focus.conns.push(*r.pick(&alive));
                 }
+                let m = &s.m;
                 let svcs: Vec<Uuid> = m.svcs.values().map(|s| s.cookie).collect();
                 let chans: Vec<Uuid> = m.chans.keys().cloned().collect();
                 let liss: Vec<Uuid> = m.lis.keys().cloned().collect();
@@ -621,96 +811,26 @@ fn run_history(seed: u64, len: usize, mix: Mix, h: &mut Hist) -> Result<(), Stri
         let fc: Vec<usize> = focus.conns.iter().cloned().filter(|x| alive.contains(x)).collect();
         let c = if !fc.is_empty() && r.chance(3, 4) { *r.pick(&fc) } else { *r.pick(&alive) };
         let roll = r.below(400);
-        h.pending = format!("SHUT {}", c);
         if roll < 2 {
-            // disconnect by dropping the client's transport
-            w.clients[c] = None;
-            w.settle();
-            let (o, cl) = drain_all(&mut w);
-            let _ = catch_unwind(AssertUnwindSafe(|| m.conn_shutdown(c)));
-            emit(h, &mut w, &mut ids, format!("SHUT {}", c), &o, &cl);
+            exec_op(h, &mut s, Op::Shut { c, clean: false }, step, None)?;
         } else if roll < 4 {
-            // clean disconnect: the client sends Shutdown; the connection answers Shutdown
-            send(w.clients[c].as_mut().unwrap(), Shutdown);
-            w.settle();
-            let (mut o, mut cl) = drain_all(&mut w);
-            o[c].retain(|x| !matches!(x, Message::Shutdown(_)));
-            w.clients[c] = None;
-            cl.retain(|x| *x != c);
-            let _ = catch_unwind(AssertUnwindSafe(|| m.conn_shutdown(c)));
-            emit(h, &mut w, &mut ids, format!("SHUT {}", c), &o, &cl);
+            exec_op(h, &mut s, Op::Shut { c, clean: true }, step, None)?;
         } else if roll < 6 {
-            // drop the connection task: the broker is not told
-            w.tasks[c] = None;
-            w.clients[c] = None;
-            dropped.push(c);
-            w.settle();
-            let (o, cl) = drain_all(&mut w);
-            m.drop_task(c);
-            emit(h, &mut w, &mut ids, format!("DROP {}", c), &o, &cl);
+            exec_op(h, &mut s, Op::Drop(c), step, None)?;
         } else if roll < 10 {
-            // the request is forwarded into the broker queue, then the task is dropped
-            let msg = gen_msg(&mut r, &p, &m, c, mix, &focus);
-            let text = fmt_msg(&msg, &mut ids);
-            *h.kinds.entry(format!("in:{}", kind_of(&text))).or_default() += 1;
-            h.pending = format!("MSG {} 0 - {}", c, text);
-            send(w.clients[c].as_mut().unwrap(), msg.clone());
-            for _ in 0..4 {
-                poll(&mut w.tasks[c]);
-            }
-            w.tasks[c] = None;
-            w.clients[c] = None;
-            dropped.push(c);
-            // the drop happens before the broker dequeues the request
-            m.drop_task(c);
-            // (no gauge query here: polling the broker would let it dequeue the request)
-            writeln!(h.out, "EV DROP {}\nSTATS -\nEXIT 0\nEND", c).unwrap();
-            h.steps += 1;
-            w.settle();
-            let (o, cl) = drain_all(&mut w);
-            let bser = o.iter().flatten().find_map(|x| match x {
-                Message::CallFunction(cf) => Some(cf.serial),
-                Message::CallFunction2(cf) => Some(cf.serial),
-                _ => None,
-            });
-            if tracker_ok && catch_unwind(AssertUnwindSafe(|| m.message(c, msg, None))).is_err() {
-                tracker_ok = false;
-            }
-            let bs = bser.map(|b| b.to_string()).unwrap_or_else(|| "-".into());
-            emit(h, &mut w, &mut ids, format!("MSG {} {} {} {}", c, 900_000 + step, bs, text), &o, &cl);
+            let msg = gen_msg(&mut r, &s.p, &s.m, c, mix, &focus);
+            exec_op(h, &mut s, Op::DropQueued(c, msg), step, None)?;
         } else if roll < 13 {
-            // forced by the broker handle
-            let hd = w.chandles[c].borrow().clone();
-            if let Some(hd) = hd {
-                let _ = w.with_handle(|mut bh| Box::pin(async move { bh.shutdown_connection(&hd).await.ok() }));
-                w.settle();
-                let (mut o, mut cl) = drain_all(&mut w);
-                // the client sees Shutdown and closes its side
-                let got = o[c].iter().any(|x| matches!(x, Message::Shutdown(_)));
-                if got {
-                    w.clients[c] = None;
-                    w.settle();
-                    let (o2, cl2) = drain_all(&mut w);
-                    for (a, b) in o.iter_mut().zip(o2) {
-                        a.extend(b);
-                    }
-                    cl.extend(cl2);
-                }
-                cl.retain(|x| *x != c);
-                let _ = catch_unwind(AssertUnwindSafe(|| m.shutdown_conn_forced(c)));
-                emit(h, &mut w, &mut ids, format!("SHUTC {}", c), &o, &cl);
-            }
+            exec_op(h, &mut s, Op::ShutC(c), step, None)?;
         } else if roll < 25 && alive.len() < 5 {
             let v = [14u32, 16, 17, 18, 19, 20][r.below(6) as usize];
-            let i = w.connect(v);
-            m.new_conn(i, v);
-            let (o, cl) = drain_all(&mut w);
-            emit(h, &mut w, &mut ids, format!("NEW {} {}", i, v), &o, &cl);
+            exec_op(h, &mut s, Op::New(v), step, None)?;
         } else {
-            let msg = gen_msg(&mut r, &p, &m, c, mix, &focus);
+            let msg = gen_msg(&mut r, &s.p, &s.m, c, mix, &focus);
             // an emitted event is only forwarded when it comes from the owner: mostly send it from there
             let mut c = c;
             if let Message::EmitEvent(e) = &msg {
+                let m = &s.m;
                 let owner = m.svcs.iter().find(|(_, s)| s.cookie == e.service_cookie.0).and_then(|(k, _)| m.objs.get(&k.0)).map(|o| o.owner);
                 if let Some(ow) = owner {
                     if alive.contains(&ow) && r.chance(4, 5) {
@@ -718,68 +838,154 @@ fn run_history(seed: u64, len: usize, mix: Mix, h: &mut Hist) -> Result<(), Stri
                     }
                 }
             }
-            step_message(h, &mut w, &mut m, &mut ids, &mut p, &mut tracker_ok, c, msg, step)?;
+            exec_op(h, &mut s, Op::Msg(c, msg), step, None)?;
         }
-        if !tracker_ok {
+        if !s.tracker_ok {
             // the tracker lost sync (it is only a generator aid): stop this history
             break;
         }
         if !shutdown_idle_sent && r.chance(1, 300) {
             shutdown_idle_sent = true;
-            w.with_handle(|mut bh| Box::pin(async move { bh.shutdown_idle().await }));
-            w.settle();
-            let (o, cl) = drain_all(&mut w);
-            emit(h, &mut w, &mut ids, "SHUTI".to_string(), &o, &cl);
+            exec_op(h, &mut s, Op::ShutI, step, None)?;
         }
     }
     // wind down: either a broker shutdown, or every client leaves and the broker is asked to stop
     // when idle; the run future must finish (its debug_asserts check that nothing is left)
-    if w.btask.is_some() {
+    if s.w.btask.is_some() {
         if r.chance(1, 3) {
-            w.with_handle(|mut bh| Box::pin(async move { bh.shutdown().await }));
-            w.settle();
-            let (mut o, mut cl) = drain_all(&mut w);
-            // clients that received Shutdown close their side
-            for j in 0..w.clients.len() {
-                if w.clients[j].is_some() && o[j].iter().any(|x| matches!(x, Message::Shutdown(_))) {
-                    w.clients[j] = None;
-                    cl.retain(|x| *x != j);
-                }
-            }
-            w.settle();
-            let (o2, cl2) = drain_all(&mut w);
-            for (a, b) in o.iter_mut().zip(o2) {
-                a.extend(b);
-            }
-            cl.extend(cl2);
-            emit(h, &mut w, &mut ids, "SHUTB".to_string(), &o, &cl);
+            exec_op(h, &mut s, Op::ShutB, step, None)?;
         } else {
-            for c in 0..w.clients.len() {
-                if w.clients[c].is_some() {
-                    w.clients[c] = None;
-                    w.settle();
-                    let (o, cl) = drain_all(&mut w);
-                    emit(h, &mut w, &mut ids, format!("SHUT {}", c), &o, &cl);
+            for c in 0..s.w.clients.len() {
+                if s.w.clients[c].is_some() {
+                    exec_op(h, &mut s, Op::Shut { c, clean: false }, step, None)?;
                 }
             }
             if !shutdown_idle_sent {
-                w.with_handle(|mut bh| Box::pin(async move { bh.shutdown_idle().await }));
-                w.settle();
-                let (o, cl) = drain_all(&mut w);
-                emit(h, &mut w, &mut ids, "SHUTI".to_string(), &o, &cl);
+                exec_op(h, &mut s, Op::ShutI, step, None)?;
             }
         }
     }
-    let _ = dropped;
     Ok(())
+}
+
+/// event text (what follows `EV ` in a trace) -> operation and the recorded fresh-id field
+fn parse_op(text: &str, ids: &mut Ids) -> Result<(Op, Option<u64>), String> {
+    let toks: Vec<&str> = text.split(' ').filter(|x| !x.is_empty()).collect();
+    let num = |x: &str| x.parse::<usize>().map_err(|_| format!("not a number {:?} in event {:?}", x, text));
+    match toks.as_slice() {
+        ["NEW", _i, v] => Ok((Op::New(num(v)? as u32), None)),
+        ["SHUT", c] => Ok((Op::Shut { c: num(c)?, clean: false }, None)),
+        ["SHUT", c, "clean"] => Ok((Op::Shut { c: num(c)?, clean: true }, None)),
+        ["SHUTC", c] => Ok((Op::ShutC(num(c)?), None)),
+        ["DROP", c] => Ok((Op::Drop(num(c)?), None)),
+        ["SHUTB"] => Ok((Op::ShutB, None)),
+        ["SHUTI"] => Ok((Op::ShutI, None)),
+        ["MSG", c, f, _bserial, _kind, ..] => {
+            let mut it = text.trim_start().splitn(5, ' ');
+            let rest = it.nth(4).ok_or_else(|| format!("event {:?}", text))?;
+            let fid = f.parse::<u64>().map_err(|_| format!("fresh id {:?} in event {:?}", f, text))?;
+            Ok((Op::Msg(num(c)?, parse_msg(rest, ids)?), Some(fid)))
+        }
+        _ => Err(format!("event {:?} not understood", text)),
+    }
+}
+
+/// re-execute the events of a stored history, in order, on a fresh world
+fn replay_history(events: &[String], h: &mut Hist) -> Result<(), String> {
+    let mut s = Sys::new(true);
+    // new ids (uuids the recording did not see at that point: behaviour changed) go above every id
+    // occurring in the file, so that they cannot collide with an id a later event mentions
+    let mut scratch = pool_ids(&s.p);
+    for e in events {
+        if let Ok((_, Some(f))) = parse_op(e, &mut scratch) {
+            if f < 900_000 && scratch.next < f {
+                scratch.next = f;
+            }
+        }
+    }
+    s.ids.next = s.ids.next.max(scratch.next);
+    writeln!(h.out, "HIST replay").unwrap();
+    let mut i = 0;
+    while i < events.len() {
+        let step = REPLAY_STEP0 + i;
+        h.pending = events[i].clone();
+        let (mut op, mut want) = parse_op(&events[i], &mut s.ids).map_err(|e| format!("event {}: {}", i + 1, e))?;
+        i += 1;
+        if let Op::New(_) = op {
+            let idx: usize = events[i - 1].split(' ').nth(1).and_then(|x| x.parse().ok()).unwrap_or(usize::MAX);
+            if idx != s.w.clients.len() {
+                return Err(format!("event {}: {:?}: the next connection has index {}", i, events[i - 1], s.w.clients.len()));
+            }
+        }
+        // `DROP c` immediately followed by `MSG c ...`: the request was queued, then the task dropped
+        if let Op::Drop(c) = op {
+            if i < events.len() && events[i].starts_with(&format!("MSG {} ", c)) {
+                if let (Op::Msg(_, msg), w2) = parse_op(&events[i], &mut s.ids).map_err(|e| format!("event {}: {}", i + 1, e))? {
+                    op = Op::DropQueued(c, msg);
+                    want = w2;
+                    i += 1;
+                }
+            }
+        }
+        exec_op(h, &mut s, op, step, want.or(Some(0)))?;
+    }
+    Ok(())
+}
+
+/// write one history's trace, with what ended it early (harness error / implementation panic)
+fn finish_history(f: &mut impl Write, h: &Hist, res: std::thread::Result<Result<(), String>>) -> bool {
+    f.write_all(h.out.as_bytes()).unwrap();
+    let mut panicked = false;
+    match res {
+        Ok(Ok(())) => {}
+        Ok(Err(e)) => writeln!(f, "HARNESS-ERROR {}", e).unwrap(),
+        Err(p) => {
+            panicked = true;
+            writeln!(f, "EVP {}", h.pending).unwrap();
+            let msg = p.downcast_ref::<String>().cloned().or_else(|| p.downcast_ref::<&str>().map(|s| s.to_string())).unwrap_or_default();
+            writeln!(f, "PANIC {}", msg.replace('\n', " ")).unwrap();
+        }
+    }
+    writeln!(f, "HISTEND").unwrap();
+    panicked
+}
+
+fn write_stats(outdir: &str, seed: u64, n: u64, steps: u64, panics: u64, kinds: &BTreeMap<String, u64>) {
+    let mut stats = String::new();
+    write!(stats, "{{\"seed\":{},\"histories\":{},\"steps\":{},\"panics\":{},\"kinds\":{{{}}}}}", seed, n, steps, panics,
+        kinds.iter().map(|(k, v)| format!("\"{}\":{}", k, v)).collect::<Vec<_>>().join(",")).unwrap();
+    std::fs::write(format!("{outdir}/stats.json"), stats).unwrap();
+}
+
+fn usage() -> ! {
+    eprintln!("usage: broker gen <outdir> <histories> <max-steps> [all|calls|registry|events|channels|listeners|abuse]");
+    eprintln!("       broker replay <outdir> <events-file>");
+    std::process::exit(2);
 }
 
 fn main() {
     quiet_panics();
     let args: Vec<String> = std::env::args().collect();
+    if args.len() >= 4 && args[1] == "replay" {
+        let outdir = &args[2];
+        let events: Vec<String> = std::fs::read_to_string(&args[3])
+            .unwrap_or_else(|e| {
+                eprintln!("cannot read {}: {}", args[3], e);
+                std::process::exit(2)
+            })
+            .lines()
+            .map(|l| l.trim().strip_prefix("EV ").unwrap_or(l.trim()).to_string())
+            .filter(|l| !l.is_empty())
+            .collect();
+        let mut f = std::io::BufWriter::new(std::fs::File::create(format!("{outdir}/trace.txt")).unwrap());
+        let mut h = Hist { pending: String::new(), out: String::new(), kinds: BTreeMap::new(), steps: 0 };
+        let res = catch_unwind(AssertUnwindSafe(|| replay_history(&events, &mut h)));
+        let panicked = finish_history(&mut f, &h, res);
+        write_stats(outdir, 0, 1, h.steps, panicked as u64, &h.kinds);
+        return;
+    }
     if args.len() < 5 || args[1] != "gen" {
-        eprintln!("usage: broker gen <outdir> <histories> <max-steps> [all|calls|registry|events|channels|listeners|abuse]");
-        std::process::exit(2);
+        usage();
     }
     let outdir = &args[2];
     let n: u64 = args[3].parse().unwrap();
@@ -802,25 +1008,13 @@ fn main() {
         let hs = seed.wrapping_mul(1_000_003).wrapping_add(i);
         let mut h = Hist { pending: String::new(), out: String::new(), kinds: BTreeMap::new(), steps: 0 };
         let res = catch_unwind(AssertUnwindSafe(|| run_history(hs, len, mix, &mut h)));
-        f.write_all(h.out.as_bytes()).unwrap();
-        match res {
-            Ok(Ok(())) => {}
-            Ok(Err(e)) => writeln!(f, "HARNESS-ERROR {}", e).unwrap(),
-            Err(p) => {
-                panics += 1;
-                writeln!(f, "EVP {}", h.pending).unwrap();
-                let msg = p.downcast_ref::<String>().cloned().or_else(|| p.downcast_ref::<&str>().map(|s| s.to_string())).unwrap_or_default();
-                writeln!(f, "PANIC {}", msg.replace('\n', " ")).unwrap();
-            }
+        if finish_history(&mut f, &h, res) {
+            panics += 1;
         }
-        writeln!(f, "HISTEND").unwrap();
         steps += h.steps;
         for (k, v) in h.kinds {
             *kinds.entry(k).or_default() += v;
         }
     }
-    let mut stats = String::new();
-    write!(stats, "{{\"seed\":{},\"histories\":{},\"steps\":{},\"panics\":{},\"kinds\":{{{}}}}}", seed, n, steps, panics,
-        kinds.iter().map(|(k, v)| format!("\"{}\":{}", k, v)).collect::<Vec<_>>().join(",")).unwrap();
-    std::fs::write(format!("{outdir}/stats.json"), stats).unwrap();
+    write_stats(outdir, seed, n, steps, panics, &kinds);
 }
